@@ -16,6 +16,21 @@ DEPS = ["Strs", "Nets", "NetsP", "Keys", "KeysP", "Page", "PageP", "IpInfoCodec"
 KNOWN_FINDINGS = []
 
 
+MANIFEST = {
+    "text": "Coq theorems over the executable model of the whole IP-information path (Model/IpInfoCodec.v): json.Marshal of "
+            "[]IPInfo, the pod annotation written by Bind, the raw-member JSON scanner of the daemon, k=v;... argument building "
+            "in any map order, CmdAdd's accumulation, the plugins' argument parser and cni/ipam's decoder. ipinfos_end_to_end: "
+            "for ALL lists of IP infos (address < 2^32, prefix <= 32, vlan < 2^16, gateway), all requested-range annotations, all "
+            "kubelet argument prefixes and every ordering of the args map, the decoder returns exactly the allocated address, "
+            "prefix length, gateway and VLAN in order; supporting theorems annotation_scanned, enc_no_semicolon, "
+            "enc_no_outer_space, ipinfos_key_no_equals, json_print_parse, decode_encode, no_ipinfos_nothing_configured. Tied to "
+            "the code end to end: real encoder, real annotation, real galaxy argument passing (verif hook 7fed6f0) and a plugin "
+            "binary that decodes with tkestack.io/galaxy/cni/ipam, compared with the model on generated pools and IP lists.",
+    "note": "trusted: Coq kernel (no axioms); encoding/json is modelled only for the shapes galaxy produces (ASCII, the IPInfo and "
+            "CniArgs structs); the CNI exec protocol (env/stdin) is exercised by the harness, not modelled",
+}
+
+
 def ip2s(n):
     return "%d.%d.%d.%d" % (n >> 24 & 255, n >> 16 & 255, n >> 8 & 255, n & 255)
 
